@@ -1,11 +1,11 @@
 /-
 Props/C07.lean — pkg_summary entries round-trip: generate→parse and canonical
 parse→generate.  Property theorems only; helper lemmas live in Lemmas/.
-First pass: name tables, printed form, history independence, type invariant.
-The full print∘parse round trip is stated (`C07_parse_print`) and carried by the
-correspondence oracle until its Lean proof lands.
+Name tables, printed form, history independence, type invariant, and the full
+print→parse round trip (`C07_parse_print`, via the C08 refinement theorem).
 -/
-import PkgsrcVerif.Lemmas.Summary
+import PkgsrcVerif.Lemmas.SummaryRoundtrip
+import PkgsrcVerif.Props.C08
 open M L
 
 /-- the two separately written name tables are mutually inverse over all 23 variables:
@@ -57,11 +57,27 @@ theorem C07_push_appends (s : Summary) (v : Var) (l : List Bytes) (item : Bytes)
 
 /-- The generate→parse round trip, at full strength: for every well-typed state with all
     required variables set, values free of CR/LF and non-empty line lists, parsing the printed
-    text yields the same value for each of the 23 variables. -/
-def C07_parse_print : Prop :=
-  ∀ (s : Summary), WellTyped s → s.isCompleted = true → S.roundTrippable s = true →
-    (∀ v n, s v = some (.i n) → InI64 n) →
-    ∃ s', Summary.parse s.print = .ok s' ∧ ∀ v, s' v = s v
+    text yields the same value for each of the 23 variables.  (Proof: the printed text is a list
+    of '\n'-terminated lines free of CR/LF, so `S.textLines` recovers them; each line classifies
+    as its own (variable, value); per variable the collected values are the stored ones; the
+    model parser equals the specification parser by `C08_model_is_spec`.) -/
+theorem C07_parse_print (s : Summary) (hw : WellTyped s) (hc : s.isCompleted = true)
+    (hr : S.roundTrippable s = true) (hi : ∀ v n, s v = some (.i n) → InI64 n) :
+    ∃ s', Summary.parse s.print = .ok s' ∧ ∀ v, s' v = s v := by
+  obtain ⟨s1, h1, e1⟩ := spec_parse_print s hw hc hr hi
+  obtain ⟨s2, h2, e2⟩ := (C08_model_is_spec s.print).2.2 s1 h1
+  exact ⟨s2, h2, fun v => (e2 v).trans (e1 v)⟩
+
+/-- the non-empty-list hypothesis is needed: an empty line list prints nothing, so it reads
+    back as "unset" -/
+theorem C07_empty_list_prints_nothing (s : Summary) (v : Var) (h : s v = some (.a [])) :
+    s.print = Summary.print (fun w => if w = v then none else s w) := by
+  unfold Summary.print
+  congr 1
+  funext w
+  by_cases e : w = v
+  · subst e; simp [h, printVar]
+  · simp [e]
 
 /-- non-vacuity: a one-variable state prints one line -/
 example : (Summary.empty.set .comment (.s [104, 105])).print =
